@@ -448,6 +448,13 @@ def process(template_path, out=None, unit=None, depth=0):
                     o['context'] = True
             i += 1
             continue
+        if d == 'skip-include':
+            # the unit provides its own version of a prelude fragment (e.g. a transparent model of a type that is opaque elsewhere)
+            if not hasattr(out, 'included'):
+                out.included = set()
+            out.included.add(arg)
+            i += 1
+            continue
         if d == 'include':
             if not hasattr(out, 'included'):
                 out.included = set()
@@ -658,9 +665,14 @@ def process_fn(tl, i, d, arg, out, unit):
                 return '%slet (%s) = %s; %s' % (m.group(1), ', '.join(tmps), m.group(3),
                                                  ' '.join('%s = %s;' % (x, t) for x, t in zip(names, tmps)))
             body2 = re.sub(r'(?m)^(\s*)\(([a-z_]\w*(?:\s*,\s*[a-z_]\w*)+)\)\s*=(?!=)\s*([^;]*);', _dd, body)
-            if body2 == body:
-                raise AnchorLoss('%s/%s: desugar-destructure: no destructuring assignment found' % (unit, qual))
-            log.append('T13 destructuring assignment desugared (Rust reference desugaring)')
+            if body2 != body:
+              log.append('T13 destructuring assignment desugared (Rust reference desugaring)')
+            body = body2
+    for k, a, ls in sections:
+        if k == 'desugar-letchain':
+            body2 = desugar_letchains(body, unit, qual)
+            if body2 != body:
+              log.append('T14 let-chain `if a && let P = e {..}` (no else) -> nested `if`s')
             body = body2
     # ---- insertions into body (compute positions on the *current* body text)
     inserts = []  # (pos, text, tag)
@@ -731,7 +743,7 @@ def process_fn(tl, i, d, arg, out, unit):
                 break
             if not placed:
                 out.lost_hints.append({'fn': qual, 'anchor': a})
-        elif k in ('spec', 'arm-pattern', 'closure-pattern', 'wrap', 'subst', 'name', 'desugar-ops', 'wrap-ok', 'desugar-destructure'):
+        elif k in ('spec', 'arm-pattern', 'closure-pattern', 'wrap', 'subst', 'name', 'desugar-ops', 'wrap-ok', 'desugar-destructure', 'desugar-letchain'):
             pass
         else:
             raise AnchorLoss('unknown section %s in %s' % (k, qual))
@@ -752,7 +764,9 @@ def process_fn(tl, i, d, arg, out, unit):
                 inserts.append((loops[int(a)][1] + 1, '\nassert(false); // CANARY %s/loop#%s\n' % (qual, a), 'canary'))
 
     # ---- emit
-    meta = {'unit': unit, 'fn': qual, 'file': rel, 'selector': sel, 'src_line': line_of(src, it.kw),
+    callees = sorted(set(m.group(1) for m in re.finditer(r'\b([A-Za-z_]\w*)\s*(?:::\s*<[^>()]*>\s*)?[(!]', raw_body))
+                     - RUST_KEYWORDS)
+    meta = {'unit': unit, 'fn': qual, 'callees': callees, 'file': rel, 'selector': sel, 'src_line': line_of(src, it.kw),
             'src_end_line': line_of(src, it.end), 'sha256': sha(raw_body), 'transforms': log, 'role': 'fn'}
     out.items.append(meta)
     out.emit('// ---- extracted: %s :: %s (lines %d-%d, body sha %s)\n' % (rel, sel, meta['src_line'], meta['src_end_line'], meta['sha256']))
@@ -824,6 +838,91 @@ def process_fn(tl, i, d, arg, out, unit):
             out.obligations.append({'name': '%s/loop#%s' % (qual, a), 'kind': 'loop', 'fn': qual,
                                     'text': rs.norm('\n'.join(ls))[:200]})
     return i
+
+
+def desugar_letchains(body, unit, qual):
+    """T14: `if c1 && let P = e && c3 { B }` with NO else branch  ->  `if c1 { if let P = e { if c3 { B } } }`.
+    (Verus 0.2026.09.13 does not support let-chains.)  `&&` is short-circuit and the block has no else, so the nesting
+    evaluates exactly the same conditions in the same order and runs B in exactly the same cases.  A chain with an
+    else branch is left alone (the unit then fails to compile: undecided)."""
+    out = body
+    guard = 0
+    while True:
+        guard += 1
+        if guard > 50:
+            break
+        toks = list(rs.tokens(out))
+        done = True
+        for idx, (j, t) in enumerate(toks):
+            if t != 'if':
+                continue
+            # header: up to the first '{' at depth 0
+            depth = 0
+            k = idx + 1
+            hb = None
+            while k < len(toks):
+                kk, tt = toks[k]
+                if tt in '([':
+                    depth += 1
+                elif tt in ')]':
+                    depth -= 1
+                elif tt == '{' and depth == 0:
+                    hb = kk
+                    break
+                k += 1
+            if hb is None:
+                continue
+            header = out[j + 2:hb]
+            # split on top-level &&
+            parts = []
+            depth = 0
+            last = 0
+            htoks = list(rs.tokens(header))
+            for (pj, pt) in htoks:
+                if pt in '([{':
+                    depth += 1
+                elif pt in ')]}':
+                    depth -= 1
+            # manual scan for '&&' at depth 0 (the lexer yields single chars for punctuation)
+            depth = 0
+            i2 = 0
+            cuts = []
+            for (pj, pt) in htoks:
+                if pt in '([{':
+                    depth += 1
+                elif pt in ')]}':
+                    depth -= 1
+                elif pt == '&' and depth == 0 and header[pj:pj + 2] == '&&' and (pj == 0 or header[pj - 1] != '&'):
+                    cuts.append(pj)
+            if not cuts:
+                continue
+            parts = []
+            prev = 0
+            for c in cuts:
+                parts.append(header[prev:c].strip())
+                prev = c + 2
+            parts.append(header[prev:].strip())
+            if not any(re.match(r'^let\b', p_) for p_ in parts):
+                continue
+            be = rs.match_close(out, hb)
+            after = out[be + 1:].lstrip()
+            if after.startswith('else'):
+                continue
+            blk = out[hb:be + 1]
+            nested = ''
+            for p_ in parts:
+                nested += 'if %s { ' % p_
+            nested = nested[:-2] + blk + ' }' * (len(parts) - 1)
+            out = out[:j] + nested + out[be + 1:]
+            done = False
+            break
+        if done:
+            break
+    return out
+
+
+RUST_KEYWORDS = {'if', 'while', 'for', 'match', 'return', 'loop', 'fn', 'let', 'in', 'as', 'move', 'else', 'Some', 'None', 'Ok', 'Err',
+                 'Box', 'Vec', 'Rc', 'vec', 'matches', 'format', 'panic', 'unreachable', 'todo', 'assert', 'debug_assert', 'Self', 'self'}
 
 
 def find_arm(fb, pattern, rel, sel):
